@@ -221,7 +221,7 @@ def _kaiser_bessel_kernel(x, beta):
     if abs(x) > 1:
         return 0
 
-    x = beta * (1 - x**2) ** 0.5
+    x = abs(beta) * (1 - x**2) ** 0.5
     t = x / 3.75
     if x < 3.75:
         return (
